@@ -972,6 +972,23 @@ func main() {
 	// --- source text of the pure wallet selection / fee / split functions (agent "select", C18) ---
 	emitSelectFacts(w, walletP, cashuP, mintP)
 
+	// --- spending conditions (C12/C13): pinned bodies of the functions Model.Spend mirrors ---
+	emitSpendFacts(w, nut11P, nut14P, mintP)
+
+	// --- C11 / C10 / C09: glue of the derivation functions (see emitSpecFacts below) ---
+	emitSpecFacts(w, cryptoP, nut13P, walletP)
+	emitHardenedKeyStart(w, repo)
+
+	// --- token functions (C14) ---
+	emitTokenFacts(w, cashuP)
+	emitTokenCallers(w, parseDir(filepath.Join(repo, "cmd/nutw")))
+
+	// --- composite literals that build the wallet's requests (agent "privacy", C08) ---
+	emitWalletWireFacts(w, repo, walletP, cashuP)
+
+	// --- HTTP surface: per-handler error mapping, decode classes, cache source text, more struct tags (agent "wire", C20) ---
+	emitWireFacts(w, repo, mintP, cashuP, cryptoP, nut04P, nut05P, nut07P)
+
 	w("\nend Gonuts.Gen\n")
 
 	if outPath == "" {
@@ -1108,4 +1125,918 @@ func emitSelectFacts(w func(string, ...any), walletP, cashuP, mintP *pkg) {
 	// createSwapRequest (Receive path) uses the same fee / split helpers
 	emit("stmts_createSwapRequest_amounts", varStatements(findFunc(walletP, "Wallet", "createSwapRequest"),
 		map[string]bool{"fees": true, "split": true, "proofs": true}, map[string]bool{"feesForProofs": true, "w.splitWalletTarget": true}))
+}
+
+// ---- spending conditions (C12, C13) ------------------------------------------------------------
+// Model.Spend mirrors a dozen small functions line by line.  Besides constants and skeletons, the
+// tie pins their BODIES: each body is printed by go/printer without comments, one trimmed non-empty
+// line per list element.  Tie/Spend.lean states the expected text; any edit of these functions
+// breaks the tie and forces the model to be re-read against the source.
+
+func bodyLines(fd *ast.FuncDecl) []string {
+	if fd == nil || fd.Body == nil {
+		return []string{"<missing>"}
+	}
+	var buf bytes.Buffer
+	cfg := printer.Config{Mode: printer.RawFormat, Tabwidth: 1}
+	if err := cfg.Fprint(&buf, fset, fd.Body); err != nil {
+		return []string{"<print error: " + err.Error() + ">"}
+	}
+	var out []string
+	for _, l := range strings.Split(buf.String(), "\n") {
+		l = strings.Join(strings.Fields(l), " ")
+		if l != "" {
+			out = append(out, l)
+		}
+	}
+	return out
+}
+
+func emitSpendFacts(w func(string, ...any), nut11P, nut14P, mintP *pkg) {
+	w("\n/-! ## spending conditions: bodies of the functions mirrored by Model.Spend (go/printer, comments stripped) -/\n")
+	emit := func(lean string, fd *ast.FuncDecl) {
+		w("def %s : List String := %s\n", lean, leanStrList(bodyLines(fd)))
+	}
+	for _, fn := range []string{"ParseP2PKTags", "PublicKeys", "ProofsSigAll", "IsSigAll", "DuplicateSignatures", "HasValidSignatures",
+		"VerifyP2PKLockedProof", "AddSignatureToInputs", "AddSignatureToOutputs"} {
+		emit("body_nut11_"+fn, findFunc(nut11P, "", fn))
+	}
+	for _, fn := range []string{"VerifyHTLCProof", "AddWitnessHTLC", "AddWitnessHTLCToOutputs"} {
+		emit("body_nut14_"+fn, findFunc(nut14P, "", fn))
+	}
+	emit("body_mint_verifyBlindedMessages", findFunc(mintP, "", "verifyBlindedMessages"))
+	// what the two output-signing helpers hash, and what they hex-decode
+	w("def args_p2pkOutputsHash : List (List String) := [")
+	for i, r := range callArgs(findFunc(nut11P, "", "AddSignatureToOutputs"), "sha256.Sum256") {
+		if i > 0 {
+			w(", ")
+		}
+		w("%s", leanStrList(r))
+	}
+	w("]\n")
+	for _, x := range []struct {
+		lean string
+		fd   *ast.FuncDecl
+	}{{"args_p2pkOutputsDecode", findFunc(nut11P, "", "AddSignatureToOutputs")}, {"args_htlcOutputsDecode", findFunc(nut14P, "", "AddWitnessHTLCToOutputs")}} {
+		w("def %s : List (List String) := [", x.lean)
+		for i, r := range callArgs(x.fd, "hex.DecodeString") {
+			if i > 0 {
+				w(", ")
+			}
+			w("%s", leanStrList(r))
+		}
+		w("]\n")
+	}
+}
+
+// ---------------------------------------------------------------------------------------------
+// C11 (derivations match the Cashu spec), reused by C10 / C09: the glue around the library calls in
+// crypto/bdhke.go HashToCurve, crypto/keyset.go DeriveKeysetId / DeriveKeysetPath / GenerateKeyset,
+// cashu/nuts/nut13 and wallet/p2pk.go, as canonical source text (go/printer) plus the numeric value
+// of the constant expressions.  Gonuts/Tie/Spec.lean equates each with what Gonuts/Spec/* uses.
+// Everything below is additive and only used by emitSpecFacts.
+// ---------------------------------------------------------------------------------------------
+
+// srcText renders a node as gofmt would print it, on one line.
+func srcText(n ast.Node) string {
+	if n == nil {
+		return ""
+	}
+	var buf bytes.Buffer
+	if err := printer.Fprint(&buf, fset, n); err != nil {
+		return "<unprintable>"
+	}
+	return strings.Join(strings.Fields(buf.String()), " ")
+}
+
+// assignedExprs returns the source text of every expression assigned to (or declared as) `name` inside fd.
+func assignedExprs(fd *ast.FuncDecl, name string) []string {
+	var out []string
+	if fd == nil || fd.Body == nil {
+		return []string{"<missing>"}
+	}
+	ast.Inspect(fd.Body, func(n ast.Node) bool {
+		switch x := n.(type) {
+		case *ast.AssignStmt:
+			for i, l := range x.Lhs {
+				if id, ok := l.(*ast.Ident); ok && id.Name == name {
+					if len(x.Rhs) == len(x.Lhs) {
+						out = append(out, srcText(x.Rhs[i]))
+					} else if len(x.Rhs) == 1 {
+						out = append(out, srcText(x.Rhs[0]))
+					}
+				}
+			}
+		case *ast.ValueSpec:
+			for i, id := range x.Names {
+				if id.Name == name {
+					t := ""
+					if x.Type != nil {
+						t = srcText(x.Type) + " = "
+					}
+					if i < len(x.Values) {
+						out = append(out, t+srcText(x.Values[i]))
+					}
+				}
+			}
+		}
+		return true
+	})
+	return out
+}
+
+// callArgsSrc is callArgs with go/printer text (keeps `x...`, composite literal elements, spacing).
+func callArgsSrc(fd *ast.FuncDecl, callee string) [][]string {
+	var out [][]string
+	if fd == nil || fd.Body == nil {
+		return [][]string{{"<missing>"}}
+	}
+	ast.Inspect(fd.Body, func(n ast.Node) bool {
+		ce, ok := n.(*ast.CallExpr)
+		if !ok {
+			return true
+		}
+		if srcText(ce.Fun) == callee {
+			args := make([]string, len(ce.Args))
+			for i, a := range ce.Args {
+				args[i] = srcText(a)
+				if i == len(ce.Args)-1 && ce.Ellipsis.IsValid() {
+					args[i] += "..."
+				}
+			}
+			out = append(out, args)
+		}
+		return true
+	})
+	return out
+}
+
+// forHeaders returns "init; cond; post" of every for statement in fd.
+func forHeaders(fd *ast.FuncDecl) []string {
+	var out []string
+	if fd == nil || fd.Body == nil {
+		return []string{"<missing>"}
+	}
+	ast.Inspect(fd.Body, func(n ast.Node) bool {
+		if fs, ok := n.(*ast.ForStmt); ok {
+			out = append(out, srcText(fs.Init)+"; "+srcText(fs.Cond)+"; "+srcText(fs.Post))
+		}
+		return true
+	})
+	return out
+}
+
+// returnsOf returns the text of the results of every return statement of fd itself (closures excluded)
+// and, separately, of the function literals inside it.
+func returnsOf(fd *ast.FuncDecl) (own []string, lits []string) {
+	if fd == nil || fd.Body == nil {
+		return []string{"<missing>"}, nil
+	}
+	var walk func(n ast.Node, inLit bool)
+	walk = func(n ast.Node, inLit bool) {
+		ast.Inspect(n, func(m ast.Node) bool {
+			switch x := m.(type) {
+			case *ast.FuncLit:
+				if m != n {
+					walk(x.Body, true)
+					return false
+				}
+			case *ast.ReturnStmt:
+				rs := make([]string, len(x.Results))
+				for i, r := range x.Results {
+					rs[i] = srcText(r)
+				}
+				if inLit {
+					lits = append(lits, strings.Join(rs, ", "))
+				} else {
+					own = append(own, strings.Join(rs, ", "))
+				}
+			}
+			return true
+		})
+	}
+	walk(fd.Body, false)
+	return
+}
+
+// specConst evaluates the integer constant expressions that occur in the glue: literals, + - * << and
+// parentheses (evalConst), and math.Exp2(k) for a constant k.
+func specConst(e ast.Expr) (int64, bool) {
+	if ce, ok := e.(*ast.CallExpr); ok && len(ce.Args) == 1 {
+		switch srcText(ce.Fun) {
+		case "math.Exp2":
+			if k, ok := specConst(ce.Args[0]); ok && k >= 0 && k < 62 {
+				return 1 << uint(k), true
+			}
+			return 0, false
+		case "uint32", "uint64", "int":
+			return specConst(ce.Args[0])
+		}
+	}
+	v, ok := evalConst(e, constEnv{})
+	if !ok {
+		return 0, false
+	}
+	i, ok := v.(int64)
+	return i, ok
+}
+
+// firstExpr finds the first expression node in fd whose source text equals want.
+func firstExpr(fd *ast.FuncDecl, want string) ast.Expr {
+	var found ast.Expr
+	if fd == nil || fd.Body == nil {
+		return nil
+	}
+	ast.Inspect(fd.Body, func(n ast.Node) bool {
+		if found != nil {
+			return false
+		}
+		if e, ok := n.(ast.Expr); ok && srcText(e) == want {
+			found = e
+			return false
+		}
+		return true
+	})
+	return found
+}
+
+func emitSpecFacts(w func(string, ...any), cryptoP, nut13P, walletP *pkg) {
+	w("\n/-! ## C11: glue of hash_to_curve, keyset id, keyset paths, NUT-13, P2PK key (canonical source text) -/\n")
+	strs := func(lean string, xs []string) { w("def %s : List String := %s\n", lean, leanStrList(xs)) }
+	args := func(lean string, rows [][]string) {
+		w("def %s : List (List String) := [", lean)
+		for i, r := range rows {
+			if i > 0 {
+				w(", ")
+			}
+			w("%s", leanStrList(r))
+		}
+		w("]\n")
+	}
+	num := func(lean string, fd *ast.FuncDecl, exprText string) {
+		e := firstExpr(fd, exprText)
+		if e == nil {
+			w("def %s : String := \"<missing %s>\"\n", lean, exprText)
+			return
+		}
+		v, ok := specConst(e)
+		if !ok {
+			w("def %s : String := \"<not constant %s>\"\n", lean, exprText)
+			return
+		}
+		w("def %s : Nat := %d\n", lean, v)
+	}
+
+	// crypto/bdhke.go HashToCurve
+	h2c := findFunc(cryptoP, "", "HashToCurve")
+	args("spec_h2c_sha256Args", callArgsSrc(h2c, "sha256.Sum256"))
+	strs("spec_h2c_counterDecl", assignedExprs(h2c, "counter"))
+	strs("spec_h2c_for", forHeaders(h2c))
+	num("spec_h2c_bound", h2c, "math.Exp2(16)")
+	strs("spec_h2c_counterBuf", assignedExprs(h2c, "c"))
+	args("spec_h2c_putLE", callArgsSrc(h2c, "binary.LittleEndian.PutUint32"))
+	args("spec_h2c_putBE", callArgsSrc(h2c, "binary.BigEndian.PutUint32"))
+	strs("spec_h2c_pkHash", assignedExprs(h2c, "pkHash"))
+	args("spec_h2c_parse", callArgsSrc(h2c, "secp256k1.ParsePubKey"))
+	// the blind / sign / unblind formulas are library calls; their operands:
+	args("spec_blind_add", callArgsSrc(findFunc(cryptoP, "", "BlindMessage"), "secp256k1.AddNonConst"))
+	args("spec_sign_mult", callArgsSrc(findFunc(cryptoP, "", "SignBlindedMessage"), "secp256k1.ScalarMultNonConst"))
+	args("spec_unblind_neg", callArgsSrc(findFunc(cryptoP, "", "UnblindSignature"), "rNeg.NegateVal"))
+	args("spec_unblind_mult", callArgsSrc(findFunc(cryptoP, "", "UnblindSignature"), "secp256k1.ScalarMultNonConst"))
+	args("spec_unblind_add", callArgsSrc(findFunc(cryptoP, "", "UnblindSignature"), "secp256k1.AddNonConst"))
+	hashE := findFunc(cryptoP, "", "HashE")
+	args("spec_hashE_hex", callArgsSrc(hashE, "hex.EncodeToString"))
+	args("spec_hashE_sha256", callArgsSrc(hashE, "sha256.Sum256"))
+
+	// crypto/keyset.go DeriveKeysetId
+	kid := findFunc(cryptoP, "", "DeriveKeysetId")
+	own, lits := returnsOf(kid)
+	strs("spec_keysetId_return", own)
+	strs("spec_keysetId_less", lits)
+	args("spec_keysetId_append", callArgsSrc(kid, "append"))
+	strs("spec_keysetId_hash", assignedExprs(kid, "hash"))
+	args("spec_keysetId_write", callArgsSrc(kid, "hash.Write"))
+	num("spec_keysetId_hexChars", kid, "14")
+
+	// crypto/keyset.go DeriveKeysetPath and GenerateKeyset
+	kp := findFunc(cryptoP, "", "DeriveKeysetPath")
+	args("spec_mintPath_Derive", append(append(callArgsSrc(kp, "key.Derive"), callArgsSrc(kp, "child.Derive")...), callArgsSrc(kp, "unitPath.Derive")...))
+	gk := findFunc(cryptoP, "", "GenerateKeyset")
+	strs("spec_genKeyset_for", forHeaders(gk))
+	strs("spec_genKeyset_amount", assignedExprs(gk, "amount"))
+	args("spec_genKeyset_Derive", callArgsSrc(gk, "keysetPath.Derive"))
+	args("spec_genKeyset_path", callArgsSrc(gk, "DeriveKeysetPath"))
+	args("spec_genKeyset_id", callArgsSrc(gk, "DeriveKeysetId"))
+
+	// cashu/nuts/nut13
+	dkp := findFunc(nut13P, "", "DeriveKeysetPath")
+	strs("spec_nut13_keysetBytes", assignedExprs(dkp, "keysetBytes"))
+	strs("spec_nut13_bigEndian", assignedExprs(dkp, "bigEndianBytes"))
+	strs("spec_nut13_keysetIdInt", assignedExprs(dkp, "keysetIdInt"))
+	num("spec_nut13_modulus", dkp, "(1<<31 - 1)")
+	num("spec_nut13_purpose", dkp, "129372")
+	args("spec_nut13_pathDerive", append(append(callArgsSrc(dkp, "master.Derive"), callArgsSrc(dkp, "purpose.Derive")...), callArgsSrc(dkp, "coinType.Derive")...))
+	ds := findFunc(nut13P, "", "DeriveSecret")
+	db := findFunc(nut13P, "", "DeriveBlindingFactor")
+	args("spec_nut13_secretDerive", append(callArgsSrc(ds, "keysetPath.Derive"), callArgsSrc(ds, "counterPath.Derive")...))
+	args("spec_nut13_rDerive", append(callArgsSrc(db, "keysetPath.Derive"), callArgsSrc(db, "counterPath.Derive")...))
+	strs("spec_nut13_secretBytes", assignedExprs(ds, "secretBytes"))
+	strs("spec_nut13_secret", assignedExprs(ds, "secret"))
+	rown, _ := returnsOf(db)
+	strs("spec_nut13_rReturns", rown)
+
+	// wallet/p2pk.go
+	p2 := findFunc(walletP, "", "DeriveP2PK")
+	args("spec_p2pk_Derive", append(append(append(callArgsSrc(p2, "key.Derive"), callArgsSrc(p2, "purpose.Derive")...),
+		callArgsSrc(p2, "coinType.Derive")...), callArgsSrc(p2, "first.Derive")...))
+}
+
+// emitHardenedKeyStart reads the constant hdkeychain.HardenedKeyStart from the btcutil version that /repo's go.mod
+// pins, in the module cache (the same files the harness is compiled against).  Data only.
+func emitHardenedKeyStart(w func(string, ...any), repo string) {
+	missing := func(why string) { w("def spec_hardenedKeyStart : String := %s\n", leanStr("<missing: "+why+">")) }
+	gomod, err := os.ReadFile(filepath.Join(repo, "go.mod"))
+	if err != nil {
+		missing("go.mod")
+		return
+	}
+	version := ""
+	for _, line := range strings.Split(string(gomod), "\n") {
+		f := strings.Fields(line)
+		for i := 0; i+1 < len(f); i++ {
+			if f[i] == "github.com/btcsuite/btcd/btcutil" {
+				version = f[i+1]
+			}
+		}
+	}
+	if version == "" {
+		missing("btcutil not required")
+		return
+	}
+	var caches []string
+	if c := os.Getenv("GOMODCACHE"); c != "" {
+		caches = append(caches, c)
+	}
+	for _, gp := range filepath.SplitList(os.Getenv("GOPATH")) {
+		caches = append(caches, filepath.Join(gp, "pkg", "mod"))
+	}
+	if h, err := os.UserHomeDir(); err == nil {
+		caches = append(caches, filepath.Join(h, "go", "pkg", "mod"))
+	}
+	for _, c := range caches {
+		dir := filepath.Join(c, "github.com", "btcsuite", "btcd", "btcutil@"+version, "hdkeychain")
+		if _, err := os.Stat(dir); err != nil {
+			continue
+		}
+		env := collectConsts(parseDir(dir))
+		if v, ok := env["HardenedKeyStart"].(int64); ok {
+			w("def spec_hardenedKeyStart : Nat := %d\n", v)
+			w("def spec_btcutilVersion : String := %s\n", leanStr(version))
+			return
+		}
+	}
+	missing("hdkeychain source not in the module cache")
+}
+
+// ---- token front end (C14): slice expressions, string literals, if-conditions, index expressions and the
+// base64/hex/json/cbor calls of the token functions, in source order (data only; Gonuts/Tie/Token.lean
+// proves them equal to what Model.Token uses) ----
+
+type tokenFnFacts struct {
+	slices  [][3]string // (operand, low, high) of every slice expression
+	strings []string    // string literals
+	conds   []string    // rendered if-conditions
+	indexes []string    // rendered index expressions (x[i])
+	calls   []string    // callees starting with one of the library prefixes, or one of the local decoder names
+}
+
+func tokenFacts(fd *ast.FuncDecl) tokenFnFacts {
+	var f tokenFnFacts
+	if fd == nil || fd.Body == nil {
+		f.strings = []string{"<missing>"}
+		return f
+	}
+	libs := []string{"base64.", "hex.", "json.", "cbor.", "DecodeTokenV3", "DecodeTokenV4"}
+	ast.Inspect(fd.Body, func(n ast.Node) bool {
+		switch x := n.(type) {
+		case *ast.SliceExpr:
+			f.slices = append(f.slices, [3]string{exprString(x.X), exprString(x.Low), exprString(x.High)})
+		case *ast.BasicLit:
+			if x.Kind == token.STRING {
+				if v, err := strconv.Unquote(x.Value); err == nil {
+					f.strings = append(f.strings, v)
+				}
+			}
+		case *ast.IfStmt:
+			f.conds = append(f.conds, exprString(x.Cond))
+		case *ast.IndexExpr:
+			f.indexes = append(f.indexes, exprString(x))
+		case *ast.CallExpr:
+			callee := exprString(x.Fun)
+			for _, l := range libs {
+				if strings.HasPrefix(callee, l) {
+					f.calls = append(f.calls, callee)
+					break
+				}
+			}
+		}
+		return true
+	})
+	return f
+}
+
+func emitTokenFacts(w func(string, ...any), cashuP *pkg) {
+	w("\n/-! ## token functions (C14): slices, literals, conditions, index expressions, library calls -/\n")
+	for _, fn := range [][2]string{
+		{"", "DecodeToken"}, {"", "DecodeTokenV3"}, {"", "DecodeTokenV4"},
+		{"TokenV3", "Serialize"}, {"TokenV4", "Serialize"}, {"TokenV3", "Mint"}, {"TokenV4", "Mint"},
+		{"TokenV3", "Proofs"}, {"TokenV4", "Proofs"}, {"TokenV3", "Amount"}, {"TokenV4", "Amount"},
+		{"", "NewTokenV3"}, {"", "NewTokenV4"},
+	} {
+		name := fn[1]
+		if fn[0] != "" {
+			name = fn[0] + "_" + fn[1]
+		}
+		f := tokenFacts(findFunc(cashuP, fn[0], fn[1]))
+		w("def tok_%s_slices : List (String × String × String) := [", name)
+		for i, r := range f.slices {
+			if i > 0 {
+				w(", ")
+			}
+			w("(%s, %s, %s)", leanStr(r[0]), leanStr(r[1]), leanStr(r[2]))
+		}
+		w("]\n")
+		w("def tok_%s_strings : List String := %s\n", name, leanStrList(f.strings))
+		w("def tok_%s_conds : List String := %s\n", name, leanStrList(f.conds))
+		w("def tok_%s_indexes : List String := %s\n", name, leanStrList(f.indexes))
+		w("def tok_%s_calls : List String := %s\n", name, leanStrList(f.calls))
+	}
+}
+
+// emitTokenCallers: how cmd/nutw hands its command-line argument to cashu.DecodeToken (C14 anchor nutw.go:194):
+// for `receive` and `decode`, the argument expressions of cashu.DecodeToken, the right-hand sides assigned to those
+// argument variables, and the calls made on the decoded token value.
+func emitTokenCallers(w func(string, ...any), nutwP *pkg) {
+	for _, fn := range []string{"receive", "decode"} {
+		fd := findFunc(nutwP, "", fn)
+		args := callArgs(fd, "cashu.DecodeToken")
+		vars := map[string]bool{}
+		for _, a := range args {
+			for _, x := range a {
+				vars[x] = true
+			}
+		}
+		var assigns, tokenCalls []string
+		if fd != nil && fd.Body != nil {
+			ast.Inspect(fd.Body, func(n ast.Node) bool {
+				switch x := n.(type) {
+				case *ast.AssignStmt:
+					for i, l := range x.Lhs {
+						if vars[exprString(l)] && i < len(x.Rhs) {
+							assigns = append(assigns, exprString(l)+x.Tok.String()+exprString(x.Rhs[i]))
+						}
+					}
+				case *ast.CallExpr:
+					callee := exprString(x.Fun)
+					if strings.HasPrefix(callee, "token.") {
+						tokenCalls = append(tokenCalls, callee)
+					}
+					for _, a := range x.Args {
+						if exprString(a) == "token" {
+							tokenCalls = append(tokenCalls, callee+"(token)")
+						}
+					}
+				}
+				return true
+			})
+		}
+		w("def tok_nutw_%s_decodeArgs : List (List String) := [", fn)
+		for i, r := range args {
+			if i > 0 {
+				w(", ")
+			}
+			w("%s", leanStrList(r))
+		}
+		w("]\n")
+		w("def tok_nutw_%s_assigns : List String := %s\n", fn, leanStrList(assigns))
+		w("def tok_nutw_%s_tokenUses : List String := %s\n", fn, leanStrList(tokenCalls))
+	}
+}
+
+// ============================================================================================
+// C08 (agent "privacy"): what the wallet puts into its requests.
+// Data only: for every composite literal of a request type (and of cashu.Proof / BlindedMessage /
+// DLEQProof / swapRequestPayload) in package wallet, the enclosing top-level function and the
+// rendered `Field:expr` entries in source order; the json tags of the request structs; the text of
+// NewTokenV3 (the place where DLEQs are stripped for the caller).
+// Gonuts/Tie/WalletWire.lean proves each equal to what Model/WalletWire.lean was written against.
+// ============================================================================================
+
+func emitWalletWireFacts(w func(string, ...any), repo string, walletP, cashuP *pkg) {
+	w("\n/-! ## composite literals building the wallet's requests (C08) -/\n")
+	type lit struct {
+		fn     string
+		fields []string
+	}
+	var names []string
+	for n := range walletP.files {
+		names = append(names, n)
+	}
+	sort.Strings(names)
+	collect := func(typ string) []lit {
+		var out []lit
+		for _, n := range names {
+			for _, d := range walletP.files[n].Decls {
+				fd, ok := d.(*ast.FuncDecl)
+				if !ok || fd.Body == nil {
+					continue
+				}
+				ast.Inspect(fd.Body, func(x ast.Node) bool {
+					cl, ok := x.(*ast.CompositeLit)
+					if !ok || exprString(cl.Type) != typ {
+						return true
+					}
+					l := lit{fn: fd.Name.Name}
+					for _, e := range cl.Elts {
+						l.fields = append(l.fields, exprString(e))
+					}
+					out = append(out, l)
+					return true
+				})
+			}
+		}
+		return out
+	}
+	emit := func(lean, typ string) {
+		w("def %s : List (String × List String) := [", lean)
+		for i, l := range collect(typ) {
+			if i > 0 {
+				w(", ")
+			}
+			w("(%s, %s)", leanStr(l.fn), leanStrList(l.fields))
+		}
+		w("]\n")
+	}
+	emit("wlit_PostSwapRequest", "nut03.PostSwapRequest")
+	emit("wlit_PostMeltBolt11Request", "nut05.PostMeltBolt11Request")
+	emit("wlit_PostMintBolt11Request", "nut04.PostMintBolt11Request")
+	emit("wlit_PostCheckStateRequest", "nut07.PostCheckStateRequest")
+	emit("wlit_PostRestoreRequest", "nut09.PostRestoreRequest")
+	emit("wlit_PostMintQuoteBolt11Request", "nut04.PostMintQuoteBolt11Request")
+	emit("wlit_PostMeltQuoteBolt11Request", "nut05.PostMeltQuoteBolt11Request")
+	emit("wlit_swapRequestPayload", "swapRequestPayload")
+	emit("wlit_Proof", "cashu.Proof")
+	emit("wlit_BlindedMessage", "cashu.BlindedMessage")
+	emit("wlit_DLEQProof", "cashu.DLEQProof")
+
+	emitFields := func(lean string, p *pkg, typ string) {
+		w("def %s : List (String × String × String) := [", lean)
+		for i, r := range structFields(p, typ) {
+			if i > 0 {
+				w(", ")
+			}
+			w("(%s, %s, %s)", leanStr(r[0]), leanStr(r[1]), leanStr(r[2]))
+		}
+		w("]\n")
+	}
+	emitFields("fields_PostSwapRequest", parseDir(filepath.Join(repo, "cashu/nuts/nut03")), "PostSwapRequest")
+	emitFields("fields_PostMintBolt11Request", parseDir(filepath.Join(repo, "cashu/nuts/nut04")), "PostMintBolt11Request")
+	emitFields("fields_PostMintQuoteBolt11Request", parseDir(filepath.Join(repo, "cashu/nuts/nut04")), "PostMintQuoteBolt11Request")
+	emitFields("fields_PostMeltBolt11Request", parseDir(filepath.Join(repo, "cashu/nuts/nut05")), "PostMeltBolt11Request")
+	emitFields("fields_PostMeltQuoteBolt11Request", parseDir(filepath.Join(repo, "cashu/nuts/nut05")), "PostMeltQuoteBolt11Request")
+	emitFields("fields_PostCheckStateRequest", parseDir(filepath.Join(repo, "cashu/nuts/nut07")), "PostCheckStateRequest")
+	emitFields("fields_PostRestoreRequest", parseDir(filepath.Join(repo, "cashu/nuts/nut09")), "PostRestoreRequest")
+
+	emitSrc := func(lean string, lines []string) {
+		w("def %s : List String := [\n", lean)
+		for i, l := range lines {
+			sep := ","
+			if i == len(lines)-1 {
+				sep = ""
+			}
+			w("  %s%s\n", leanStr(l), sep)
+		}
+		w("]\n")
+	}
+	// which proofs reach swap() / swapProofs: the arguments of their callers
+	emitCalls := func(lean, callee string, fns []string) {
+		w("def %s : List (String × List String) := [", lean)
+		first := true
+		for _, fn := range fns {
+			fd := findFunc(walletP, "Wallet", fn)
+			for _, args := range callArgs(fd, callee) {
+				if !first {
+					w(", ")
+				}
+				first = false
+				w("(%s, %s)", leanStr(fn), leanStrList(args))
+			}
+		}
+		w("]\n")
+	}
+	emitCalls("wcall_createSwapRequest", "w.createSwapRequest", []string{"Receive", "ReceiveHTLC", "swapToTrusted", "ReclaimUnspentProofs"})
+	emitCalls("wcall_swapProofs", "w.swapProofs", []string{"MintSwap", "swapToTrusted"})
+	emitCalls("wcall_swap", "swap", []string{"Receive", "ReceiveHTLC", "swapToTrusted", "ReclaimUnspentProofs"})
+	emitCalls("wcall_getProofsForAmount", "w.getProofsForAmount", []string{"Send", "Melt", "MintSwap"})
+	emitSrc("src_NewTokenV3", srcLines(findFunc(cashuP, "", "NewTokenV3")))
+	emitSrc("src_NewBlindedMessage", srcLines(findFunc(cashuP, "", "NewBlindedMessage")))
+	// helper of the F5 fix (absent before it): DLEQ-less copies of request inputs
+	emitSrc("src_inputsWithoutDLEQ", srcLines(findFunc(walletP, "", "inputsWithoutDLEQ")))
+}
+
+// ============================================================================================
+// C20 (agent "wire"): facts about mint/server.go that Model/Wire.lean mirrors.  Data only:
+//   * for every HTTP handler: the internal error codes it tests in `cashuErr.Code == cashu.X`
+//     (those are the ones it replaces by a constant), the first argument of every writeErr call in
+//     source order, whether it checks the {method} variable, the request type it decodes;
+//   * decodeJsonReqBody: the case conditions of its error switch and its string literals;
+//   * go/printer text of Cache.Set / Get / DeleteExpired, writeErr, setupHeaders, the loop of Start,
+//     PublicKeys.MarshalJSON;
+//   * the NUT-19 advertisement in SetMintInfo;
+//   * which cashu.Error variables are used at all (selector uses outside their declaration);
+//   * JSON tags of the remaining request / response structs.
+// Gonuts/Tie/Wire.lean proves each equal to what the model uses.
+// ============================================================================================
+
+func emitWireFacts(w func(string, ...any), repo string, mintP, cashuP, cryptoP, nut04P, nut05P, nut07P *pkg) {
+	w("\n/-! ## HTTP surface (C20): handlers, decoding, cache, advertisement -/\n")
+	oneLine := func(n ast.Node) string { return strings.Join(strings.Fields(nodeText(n)), " ") }
+	emitLines := func(lean string, lines []string) {
+		w("def %s : List String := [\n", lean)
+		for i, l := range lines {
+			sep := ","
+			if i == len(lines)-1 {
+				sep = ""
+			}
+			w("  %s%s\n", leanStr(l), sep)
+		}
+		w("]\n")
+	}
+	// handlers = methods of MintServer with the (rw, req) signature
+	var handlers []*ast.FuncDecl
+	for _, f := range mintP.files {
+		for _, d := range f.Decls {
+			fd, ok := d.(*ast.FuncDecl)
+			if !ok || fd.Recv == nil || fd.Body == nil || len(fd.Recv.List) == 0 {
+				continue
+			}
+			if strings.TrimPrefix(exprString(fd.Recv.List[0].Type), "*") != "MintServer" {
+				continue
+			}
+			if fd.Type.Params == nil || len(fd.Type.Params.List) != 2 || exprString(fd.Type.Params.List[0].Type) != "http.ResponseWriter" {
+				continue
+			}
+			handlers = append(handlers, fd)
+		}
+	}
+	sort.Slice(handlers, func(i, j int) bool { return handlers[i].Name.Name < handlers[j].Name.Name })
+	type row struct {
+		name string
+		vals []string
+	}
+	emitRows := func(lean string, rows []row) {
+		w("def %s : List (String × List String) := [\n", lean)
+		for i, r := range rows {
+			sep := ","
+			if i == len(rows)-1 {
+				sep = ""
+			}
+			w("  (%s, %s)%s\n", leanStr(r.name), leanStrList(r.vals), sep)
+		}
+		w("]\n")
+	}
+	var codes, werrs, decodes, opcalls []row
+	var methodChecks []string
+	for _, fd := range handlers {
+		seen := map[string]bool{}
+		var cs, ws, ds, ops []string
+		varTypes := map[string]string{}
+		hasMethod := false
+		ast.Inspect(fd.Body, func(n ast.Node) bool {
+			switch x := n.(type) {
+			case *ast.BinaryExpr:
+				if x.Op == token.EQL && exprString(x.X) == "cashuErr.Code" {
+					c := strings.TrimPrefix(exprString(x.Y), "cashu.")
+					if !seen[c] {
+						seen[c] = true
+						cs = append(cs, c)
+					}
+				}
+				if x.Op == token.NEQ && exprString(x.X) == "method" && exprString(x.Y) == "cashu.BOLT11_METHOD" {
+					hasMethod = true
+				}
+			case *ast.DeclStmt:
+				if gd, ok := x.Decl.(*ast.GenDecl); ok && gd.Tok == token.VAR {
+					for _, sp := range gd.Specs {
+						if vs, ok := sp.(*ast.ValueSpec); ok && vs.Type != nil {
+							for _, nm := range vs.Names {
+								varTypes[nm.Name] = exprString(vs.Type)
+							}
+						}
+					}
+				}
+			case *ast.CallExpr:
+				callee := exprString(x.Fun)
+				switch {
+				case callee == "ms.writeErr" && len(x.Args) >= 3:
+					ws = append(ws, exprString(x.Args[2]))
+				case callee == "decodeJsonReqBody" && len(x.Args) == 2:
+					v := strings.TrimPrefix(exprString(x.Args[1]), "&")
+					ds = append(ds, varTypes[v])
+				case strings.HasPrefix(callee, "ms.mint.") && callee != "ms.mint.logDebugf" && !strings.HasPrefix(callee, "ms.mint.logger"):
+					ops = append(ops, strings.TrimPrefix(callee, "ms.mint."))
+				}
+			}
+			return true
+		})
+		sort.Strings(cs)
+		codes = append(codes, row{fd.Name.Name, cs})
+		werrs = append(werrs, row{fd.Name.Name, ws})
+		decodes = append(decodes, row{fd.Name.Name, ds})
+		opcalls = append(opcalls, row{fd.Name.Name, ops})
+		if hasMethod {
+			methodChecks = append(methodChecks, fd.Name.Name)
+		}
+	}
+	emitRows("handlerGenericCodes", codes)
+	emitRows("handlerWriteErrArgs", werrs)
+	emitRows("handlerDecodes", decodes)
+	emitRows("handlerMintCalls", opcalls)
+	w("def handlerMethodChecks : List String := %s\n", leanStrList(methodChecks))
+
+	// decodeJsonReqBody
+	dfd := findFunc(mintP, "", "decodeJsonReqBody")
+	var conds, lits []string
+	if dfd != nil {
+		ast.Inspect(dfd.Body, func(n ast.Node) bool {
+			switch x := n.(type) {
+			case *ast.CaseClause:
+				if len(x.List) == 0 {
+					conds = append(conds, "default")
+				}
+				for _, e := range x.List {
+					conds = append(conds, oneLine(e))
+				}
+			case *ast.BasicLit:
+				if x.Kind == token.STRING {
+					if sv, err := strconv.Unquote(x.Value); err == nil {
+						lits = append(lits, sv)
+					}
+				}
+			}
+			return true
+		})
+	}
+	w("def decodeSwitchCases : List String := %s\n", leanStrList(conds))
+	w("def decodeStringLiterals : List String := %s\n", leanStrList(lits))
+	emitLines("src_decodeJsonReqBody", srcLines(dfd))
+
+	// source text of the small functions the cache / transport model mirrors
+	emitLines("src_CacheSet", srcLines(findFunc(mintP, "Cache", "Set")))
+	emitLines("src_CacheGet", srcLines(findFunc(mintP, "Cache", "Get")))
+	emitLines("src_CacheDeleteExpired", srcLines(findFunc(mintP, "Cache", "DeleteExpired")))
+	emitLines("src_NewCache", srcLines(findFunc(mintP, "", "NewCache")))
+	emitLines("src_writeErr", srcLines(findFunc(mintP, "MintServer", "writeErr")))
+	emitLines("src_setupHeaders", srcLines(findFunc(mintP, "", "setupHeaders")))
+	emitLines("src_Start", srcLines(findFunc(mintP, "MintServer", "Start")))
+	emitLines("src_SetupMintServer", srcLines(findFunc(mintP, "", "SetupMintServer")))
+	emitLines("src_PublicKeysMarshalJSON", srcLines(findFunc(cryptoP, "PublicKeys", "MarshalJSON")))
+	emitLines("src_CheckDuplicateProofs", srcLines(findFunc(cashuP, "", "CheckDuplicateProofs")))
+
+	// the statements of the two cached handlers that touch the cache, in source order
+	cacheStmts := func(fd *ast.FuncDecl) []string {
+		var out []string
+		if fd == nil {
+			return []string{"<missing>"}
+		}
+		ast.Inspect(fd.Body, func(n ast.Node) bool {
+			switch x := n.(type) {
+			case *ast.IfStmt:
+				c := oneLine(x.Cond)
+				if c == "found" || strings.Contains(c, "REQUEST_BODY_SIZE_LIMIT") {
+					out = append(out, "if "+c)
+				}
+			case *ast.CallExpr:
+				callee := exprString(x.Fun)
+				if strings.HasPrefix(callee, "ms.cache.") || callee == "ms.mint.Swap" || callee == "ms.mint.MintTokens" || callee == "decodeJsonReqBody" {
+					out = append(out, "call "+callee)
+				}
+			}
+			return true
+		})
+		return out
+	}
+	emitLines("stmts_cache_swapRequest", cacheStmts(findFunc(mintP, "MintServer", "swapRequest")))
+	emitLines("stmts_cache_mintTokensRequest", cacheStmts(findFunc(mintP, "MintServer", "mintTokensRequest")))
+	emitLines("stmts_cache_getKeysetById", cacheStmts(findFunc(mintP, "MintServer", "getKeysetById")))
+	emitLines("stmts_cache_getActiveKeysets", cacheStmts(findFunc(mintP, "MintServer", "getActiveKeysets")))
+	// key / TTL arguments of the keyset uses of the cache
+	argRows := func(fd *ast.FuncDecl, callee string) [][]string { return callArgs(fd, callee) }
+	emitArgs := func(lean string, rows [][]string) {
+		w("def %s : List (List String) := [", lean)
+		for i, r := range rows {
+			if i > 0 {
+				w(", ")
+			}
+			w("%s", leanStrList(r))
+		}
+		w("]\n")
+	}
+	emitArgs("args_cacheGet_keysById", argRows(findFunc(mintP, "MintServer", "getKeysetById"), "ms.cache.Get"))
+	emitArgs("args_cacheSet_keysById", argRows(findFunc(mintP, "MintServer", "getKeysetById"), "ms.cache.Set"))
+	emitArgs("args_cacheGet_activeKeys", argRows(findFunc(mintP, "MintServer", "getActiveKeysets"), "ms.cache.Get"))
+	emitArgs("args_cacheSet_activeKeys", argRows(findFunc(mintP, "MintServer", "getActiveKeysets"), "ms.cache.Set"))
+
+	// NUT-19 advertisement: the Nut19 field of the nuts literal in SetMintInfo
+	adv := "<missing>"
+	if fd := findFunc(mintP, "Mint", "SetMintInfo"); fd != nil {
+		ast.Inspect(fd.Body, func(n ast.Node) bool {
+			if kv, ok := n.(*ast.KeyValueExpr); ok && exprString(kv.Key) == "Nut19" {
+				adv = oneLine(kv.Value)
+				return false
+			}
+			return true
+		})
+	}
+	w("def nut19Advertisement : String := %s\n", leanStr(adv))
+
+	// uses of the error variables of cashu/cashu.go: selector uses `cashu.X` in the mint package + bare uses inside cashu
+	var names []string
+	for _, r := range collectErrors(cashuP, collectConsts(cashuP), nil) {
+		names = append(names, r.name)
+	}
+	uses := map[string]int{}
+	for _, f := range mintP.files {
+		ast.Inspect(f, func(n ast.Node) bool {
+			if se, ok := n.(*ast.SelectorExpr); ok && exprString(se.X) == "cashu" {
+				uses[se.Sel.Name]++
+			}
+			return true
+		})
+	}
+	for _, f := range cashuP.files {
+		for _, d := range f.Decls {
+			fd, ok := d.(*ast.FuncDecl)
+			if !ok || fd.Body == nil {
+				continue
+			}
+			ast.Inspect(fd.Body, func(n ast.Node) bool {
+				if id, ok := n.(*ast.Ident); ok {
+					uses[id.Name]++
+				}
+				return true
+			})
+		}
+	}
+	w("def errVarUsed : List (String × Bool) := [")
+	for i, n := range names {
+		if i > 0 {
+			w(", ")
+		}
+		w("(%s, %v)", leanStr(n), uses[n] > 0)
+	}
+	w("]\n")
+
+	// JSON tags of the remaining request / response structs
+	emitFields := func(lean string, rows [][3]string) {
+		w("def %s : List (String × String × String) := [", lean)
+		for i, r := range rows {
+			if i > 0 {
+				w(", ")
+			}
+			w("(%s, %s, %s)", leanStr(r[0]), leanStr(r[1]), leanStr(r[2]))
+		}
+		w("]\n")
+	}
+	nut01P := parseDir(filepath.Join(repo, "cashu/nuts/nut01"))
+	nut02P := parseDir(filepath.Join(repo, "cashu/nuts/nut02"))
+	nut03P := parseDir(filepath.Join(repo, "cashu/nuts/nut03"))
+	nut06P := parseDir(filepath.Join(repo, "cashu/nuts/nut06"))
+	nut09P := parseDir(filepath.Join(repo, "cashu/nuts/nut09"))
+	emitFields("fields_MintQuoteRequest", structFields(nut04P, "PostMintQuoteBolt11Request"))
+	emitFields("fields_MintRequest", structFields(nut04P, "PostMintBolt11Request"))
+	emitFields("fields_MintResponse", structFields(nut04P, "PostMintBolt11Response"))
+	emitFields("fields_MintQuoteTemp", structFields(nut04P, "tempQuote"))
+	emitFields("fields_SwapRequest", structFields(nut03P, "PostSwapRequest"))
+	emitFields("fields_SwapResponse", structFields(nut03P, "PostSwapResponse"))
+	emitFields("fields_MeltQuoteRequest", structFields(nut05P, "PostMeltQuoteBolt11Request"))
+	emitFields("fields_MppOption", structFields(nut05P, "MppOption"))
+	emitFields("fields_MeltRequest", structFields(nut05P, "PostMeltBolt11Request"))
+	emitFields("fields_MeltQuoteTemp", structFields(nut05P, "tempQuote"))
+	emitFields("fields_CheckStateRequest", structFields(nut07P, "PostCheckStateRequest"))
+	emitFields("fields_CheckStateResponse", structFields(nut07P, "PostCheckStateResponse"))
+	emitFields("fields_ProofStateTemp", structFields(nut07P, "tempProofState"))
+	emitFields("fields_RestoreRequest", structFields(nut09P, "PostRestoreRequest"))
+	emitFields("fields_RestoreResponse", structFields(nut09P, "PostRestoreResponse"))
+	emitFields("fields_GetKeysResponse", structFields(nut01P, "GetKeysResponse"))
+	emitFields("fields_KeysKeyset", structFields(nut01P, "Keyset"))
+	emitFields("fields_GetKeysetsResponse", structFields(nut02P, "GetKeysetsResponse"))
+	emitFields("fields_KeysetsKeyset", structFields(nut02P, "Keyset"))
+	emitFields("fields_MintInfo", structFields(nut06P, "MintInfo"))
+	emitFields("fields_Nuts", structFields(nut06P, "Nuts"))
+	emitFields("fields_NutSetting", structFields(nut06P, "NutSetting"))
+	emitFields("fields_MethodSetting", structFields(nut06P, "MethodSetting"))
+	emitFields("fields_Supported", structFields(nut06P, "Supported"))
+	emitFields("fields_Nut19Setting", structFields(nut06P, "Nut19Setting"))
+	emitFields("fields_CachedEndpoint", structFields(nut06P, "CachedEndpoint"))
 }
